@@ -83,6 +83,14 @@ type ackMonitor struct {
 	mu      sync.Mutex
 	checked map[int64]int64 // stream id -> highest offset already compared
 	n       atomic.Int64
+	acked   map[string]int64 // "follower@term" -> highest offset acknowledged on a stream of that term
+}
+
+func (m *ackMonitor) ackedBy(follower string, term int64) (int64, bool) {
+	m.mu.Lock()
+	defer m.mu.Unlock()
+	v, ok := m.acked[fmt.Sprintf("%s@%d", follower, term)]
+	return v, ok
 }
 
 func readEntry(w wal.Wal, off int64) (*proto.LogEntry, error) {
@@ -114,6 +122,12 @@ func (m *ackMonitor) OnAckSent(s *rc.ReplStream, offset int64) {
 		return
 	}
 	m.mu.Lock()
+	if m.acked == nil {
+		m.acked = map[string]int64{}
+	}
+	if k := fmt.Sprintf("%s@%d", s.Follower, s.Term); offset > m.acked[k] || m.acked[k] == 0 {
+		m.acked[k] = offset
+	}
 	from, seen := m.checked[s.ID]
 	if !seen {
 		from = offset - 1
@@ -143,7 +157,7 @@ func (m *ackMonitor) OnAckSent(s *rc.ReplStream, offset int64) {
 			}
 			// a concurrent truncate by a newer term can remove it legitimately: only report while this is still the current term
 			if ch.curTerm.Load() == s.Term {
-					var evs []string
+				var evs []string
 				all := ch.c.Events()
 				for _, e := range all[max(0, len(all)-3000):] {
 					if (e.Node == s.Follower || e.Peer == s.Follower) && !(e.Kind == "ack-delivered") && !(e.Kind == "ack-sent" && e.Offset < o-3) {
@@ -169,7 +183,7 @@ func (m *ackMonitor) OnAckSent(s *rc.ReplStream, offset int64) {
 		}
 	}
 }
-func (*ackMonitor) OnAckDelivered(*rc.ReplStream, int64)      {}
+func (*ackMonitor) OnAckDelivered(*rc.ReplStream, int64)       {}
 func (*ackMonitor) OnAppendSent(*rc.ReplStream, *proto.Append) {}
 
 // ---- operations ----
